@@ -9,6 +9,8 @@ mod rtfam;
 mod parsefam;
 mod opcode_gen;
 mod opcodefam;
+mod contfam;
+mod sidefam;
 
 fn main() {
     common::install_panic_hook();
@@ -26,6 +28,8 @@ fn main() {
         "rt" => rtfam::main(&args[2..]),
         "parse" => parsefam::main(&args[2..]),
         "opcode" => opcodefam::main(&args[2..]),
+        "content" => contfam::main(&args[2..]),
+        "side" => sidefam::main(&args[2..]),
         f => {
             eprintln!("unknown family {}", f);
             std::process::exit(2);
